@@ -1038,8 +1038,10 @@ def _contains(t, sub):
     return False
 
 
-def _try_summarize(self, s, var, lo, hi, k):
-    """returns True when the loop was recognised as a pure accumulation and its effect has been applied to the state"""
+def _try_summarize(self, s, var, lo, hi, k, promote=()):
+    """returns True when the loop was recognised as a pure accumulation and its effect has been applied to the state.
+    promote: names of accumulators that enter the loop as integer constants (`acc = 0`) and become coefficients in the body; their
+    entry value is replaced by a fresh coefficient constant for the recognition pass."""
     st = self.st; alg = st.alg
     j = z3.Int('%s!acc%d' % (var, k))
     saved = (dict(st.heap), dict(st.env), len(st.oblig), list(st.assume), set(st.written), st.reg.n, list(st.reg.terms), self.loopno, list(self.branch_conds), len(st.callee_log))
@@ -1048,6 +1050,10 @@ def _try_summarize(self, s, var, lo, hi, k):
         self.loopno = saved[7]; self.branch_conds = list(saved[8]); del st.callee_log[saved[9]:]
         if not keep_oblig: del st.oblig[saved[2]:]; st.reg.n = saved[5]; st.reg.terms = list(saved[6])
     st.written = set(); st.env[var] = IntV(j); st.assume = saved[3] + [lo <= j, j < hi]
+    fresh = {}
+    assigned = {t.id for t in ast.walk(s) if isinstance(t, ast.Name) and isinstance(t.ctx, ast.Store)}
+    for nm in assigned:          # every coefficient-valued local the body assigns enters the recognition pass as a fresh constant
+        if nm != var and (nm in promote or type(saved[1].get(nm)) is Cell): fresh[nm] = z3.FreshConst(alg.sort, 'acc0'); st.env[nm] = Cell(fresh[nm])
     try:
         r = self.block(s.body)
     except Undecided:
@@ -1071,11 +1077,22 @@ def _try_summarize(self, s, var, lo, hi, k):
         if nm == var: continue
         o = saved[1].get(nm)
         if o is v or nm not in saved[1]: continue
-        if isinstance(o, Cell) and isinstance(v, Cell):
-            g = self._increment(v.t, o.t)
-            if g is None or _contains(g, o.t): restore(False); return False
-            updates.append(('env', nm, o.t, g))
+        if nm in fresh:
+            if not isinstance(v, Cell): restore(False); return False
+            g = self._increment(v.t, fresh[nm])
+            if g is None or _contains(g, fresh[nm]): restore(False); return False
+            updates.append(('env', nm, alg.of_int(o.t) if isinstance(o, IntV) else o.t, g))
+        elif isinstance(o, IntV) and isinstance(v, Cell) and not promote and z3.is_int_value(o.t):
+            restore(False)
+            return self.try_summarize(s, var, lo, hi, k, promote=tuple(n_ for n_, v_ in st.env.items() if isinstance(v_, IntV) and z3.is_int_value(v_.t)
+                                                                       and any(isinstance(t, ast.Name) and t.id == n_ and isinstance(t.ctx, ast.Store) for t in ast.walk(s))))
         else: restore(False); return False
+    # an increment may read neither an accumulator nor an array that this loop updates (it would see the partial sums)
+    if any(_contains(u[3], f) for u in updates for f in fresh.values()): restore(False); return False
+    changed_olds = [saved[0][u[1][0]][0] for u in updates if u[0] == 'heap']
+    if any(_contains(u[3], o_) for u in updates for o_ in changed_olds): restore(False); return False
+    for b, (arr, L) in st.heap.items():
+        if any(_contains(arr, f) for f in fresh.values()): restore(False); return False
     if not updates: restore(False); return False
     restore(True)                      # keep the safety obligations generated for an arbitrary index in range
     for kind, key, cur, g in updates:
